@@ -84,12 +84,10 @@ Qed.
 Lemma removed_of_dom K notes : Forall (dom_ev K) notes -> Forall (fun kt => 0 <= fst kt < K) (removed_of notes).
 Proof.
   induction 1 as [|e l He Hl IH]; [constructor|]. destruct e; cbn [removed_of flat_map app]; auto.
-  constructor; [exact He|exact IH].
 Qed.
 Lemma added_of_dom K notes : Forall (dom_ev K) notes -> Forall (fun kt => 0 <= fst kt < K) (added_of notes).
 Proof.
   induction 1 as [|e l He Hl IH]; [constructor|]. destruct e; cbn [added_of flat_map app]; auto.
-  constructor; [exact He|exact IH].
 Qed.
 Lemma dom_ev_of K notes : Forall (fun kt => 0 <= fst kt < K) (added_of notes) ->
   Forall (fun kt => 0 <= fst kt < K) (removed_of notes) -> Forall (dom_ev K) notes.
@@ -99,4 +97,455 @@ Proof.
   - inversion HA; subst. constructor; [assumption|auto].
   - inversion HR; subst. constructor; [assumption|auto].
   - constructor; [exact Logic.I|auto].
+Qed.
+
+(* one send of the abstract extractor, given what its loops compute *)
+Lemma spec_feed_compute B k s f W1 skip W3 ev2 :
+  drain r_key (f_rems f) (s_wait s) [] = (W1, skip) ->
+  sintake (s_stream s ++ f_chunk f) (s_T s + zlen (f_chunk f))
+          (lb_start (s_T s) (s_kept s ++ [(s_T s, zlen (f_chunk f))])) (f_reqs f)
+          (filter (nready (s_T s + zlen (f_chunk f))) W1) skip = Some (W3, ev2) ->
+  stack_ok k (map (s_item (s_stream s ++ f_chunk f)) (filter (ready (s_T s + zlen (f_chunk f))) W1) ++ ev2) = true ->
+  spec_feed B k s f =
+  ({| s_T := s_T s + zlen (f_chunk f); s_stream := s_stream s ++ f_chunk f; s_wait := W3;
+      s_kept := sprune B (s_T s + zlen (f_chunk f)) (s_kept s ++ [(s_T s, zlen (f_chunk f))]);
+      s_armed := s_armed s && negb (f_complete f && is_nil W3 && s_armed s) |},
+   FOut (map (s_item (s_stream s ++ f_chunk f)) (filter (ready (s_T s + zlen (f_chunk f))) W1) ++ ev2)
+        (f_complete f && is_nil W3 && s_armed s)).
+Proof.
+  intros E1 E2 E3. unfold spec_feed. rewrite E1, sready_char, E2, E3. reflexivity.
+Qed.
+
+Section Compose.
+  Variables (es : list entry) (B : Z) (k : kind) (X : ecfg).
+  Hypothesis HK : x_K X = zlen es.
+  Hypothesis Hpre : x_pre X = 0.
+  Hypothesis Mn : minlen es = true.
+  Hypothesis Hcov : forallb (fun e => e_len e <=? x_n X) es = true.
+  Hypothesis Hn0 : 0 <= x_n X.
+
+  Let rq := req_of (x_K X) (x_n X) (x_pre X).
+  Let pk := fun kt : Z * Z => pkey (x_K X) (fst kt) (snd kt).
+  Let dom := fun kt : Z * Z => 0 <= fst kt < zlen es.
+  Let cpl := complete (x_n X).
+
+  (* st: the combined state; s: the state of the abstract extractor after the sends made so far;
+     dprev: what it has delivered so far *)
+  Record CI (st : cstate) (s : sstate) (dprev : list item) : Prop := {
+    ci_sinv : sinv es (s_q st) (s_P st) (s_added st);
+    ci_acq : 0 <= s_acq st <= q_samples (s_q st);
+    ci_T : s_T s = s_acq st;
+    ci_len : s_acq st <= zlen (s_P st);
+    ci_S : s_stream s = map (x_val X) (firstn (Z.to_nat (s_acq st)) (s_P st));
+    ci_valid : valid_notes (s_live st) (s_notes st);
+    ci_net : net_live (s_live st) (s_notes st) = live_of (s_q st);
+    ci_nrem : Forall (fun kt => s_acq st < snd kt + len_of es (fst kt) /\ dom kt) (removed_of (s_notes st));
+    ci_nadd : Forall (fun kt => s_acq st <= snd kt /\ dom kt) (added_of (s_notes st));
+    ci_ldom : Forall (fun kt => dom kt /\ 0 <= snd kt) (s_live st);
+    ci_lnd : NoDup (map pk (s_live st));
+    ci_lincr : incr (s_live st);
+    ci_wait : s_wait s = map rq (filter (fun kt => negb (cpl (s_acq st) kt)) (s_live st));
+    ci_deliv : dprev = map (s_item (s_stream s)) (map rq (filter (cpl (s_acq st)) (s_live st)));
+    ci_kept : exists a, 0 <= a /\ contig a (s_kept s) (s_T s)
+  }.
+
+  (* ---------- a queue operation: the extractor is not involved ---------- *)
+  Lemma qstep_CI st s d o st1 : CI st s d -> wf_qop all_rep st o = true -> qstep all_rep st o = Some st1 ->
+    CI st1 s d.
+  Proof.
+    intros [C1 C2 C3 C4 C5 C6 C7 C8 C9 C10 C11 C12 C13 C14 C15] W H.
+    unfold wf_qop in W. apply andb_true_iff in W. destruct W as [T W].
+    pose proof (sv_clock _ _ _ _ _ _ _ C1) as Hc0.
+    destruct o as [m|tm|tm]; cbn [qstep] in H.
+    - (* pop *)
+      destruct (pop_buffer all_rep (s_q st) m) as [[[q1 out] e1]|] eqn:PB; [|discriminate].
+      inversion H; subst st1; clear H.
+      pose proof (pop_buffer_sinv _ _ _ _ _ _ _ _ C1 T PB) as I'.
+      destruct (pop_buffer_live _ _ _ _ _ _ _ _ C1 Mn T PB) as ((V1 & N1 & R1 & A1) & Hclk).
+      constructor; cbn [s_q s_P s_acq s_notes s_live s_added]; auto.
+      + lia.
+      + rewrite zlen_splice by lia. lia.
+      + rewrite firstn_splice by lia. exact C5.
+      + apply valid_notes_app. rewrite C7. tauto.
+      + rewrite net_live_app, C7. exact N1.
+      + rewrite removed_of_app, R1, app_nil_r. exact C8.
+      + rewrite added_of_app. apply Forall_app. split; [exact C9|].
+        eapply Forall_impl; [|exact A1]. cbn. unfold dom. intros kt [H1 H2]. split; lia.
+    - (* pause *)
+      destruct tm as [t|].
+      + assert (Ht : 0 <= t <= q_samples (s_q st) /\ s_acq st <= t) by lia. destruct Ht as [Ht Ha].
+        rewrite (pause_all_rep (s_q st) t) in H by lia. inversion H; subst st1; clear H.
+        destruct (pause_live es (s_q st) (s_P st) (s_added st) t C1 Mn) as (V1 & N1 & A1 & R1).
+        constructor; cbn [s_q s_P s_acq s_notes s_live s_added truncate]; auto.
+        * apply pause_sinv; assumption.
+        * cbn [pause_state set_pause q_samples]. lia.
+        * rewrite Zlen_firstn. lia.
+        * rewrite firstn_trunc by lia. exact C5.
+        * apply valid_notes_app. rewrite C7. tauto.
+        * rewrite net_live_app, C7. exact N1.
+        * rewrite removed_of_app. apply Forall_app. split; [exact C8|].
+          eapply Forall_impl; [|exact R1]. cbn. unfold dom. intros kt [H1 H2]. split; lia.
+        * rewrite added_of_app, A1, app_nil_r. exact C9.
+      + cbn [pause] in H. inversion H; subst st1; clear H.
+        constructor; cbn [s_q s_P s_acq s_notes s_live s_added truncate]; rewrite ?app_nil_r; auto.
+    - (* resume *)
+      inversion H; subst st1; clear H.
+      constructor; cbn [s_q s_P s_acq s_notes s_live s_added]; auto.
+      + apply resume_sinv; [exact C1|exact T|]. destruct tm; [lia|exact Logic.I].
+      + cbn [resume set_pause q_samples]. destruct tm; lia.
+  Qed.
+
+  (* ---------- facts about the requests ---------- *)
+  Lemma len_cov kt : dom kt -> 1 <= len_of es (fst kt) <= x_n X.
+  Proof.
+    unfold dom. intros H. split; [apply minlen_len; assumption|].
+    apply znth_lt_Some in H. destruct H as [e He]. unfold len_of. rewrite He.
+    apply LemmasC04.znth_In in He. rewrite forallb_forall in Hcov. apply Hcov in He. lia.
+  Qed.
+
+  Lemma ready_rq T kt : ready T (rq kt) = cpl T kt.
+  Proof. unfold ready, cpl, complete, rq, req_of. cbn [r_lo r_n]. rewrite Hpre. f_equal. lia. Qed.
+  Lemma nready_rq T kt : nready T (rq kt) = negb (cpl T kt).
+  Proof. unfold nready. rewrite ready_rq. reflexivity. Qed.
+  Lemma rq_lo kt : r_lo (rq kt) = snd kt.
+  Proof. unfold rq, req_of. cbn [r_lo]. rewrite Hpre. lia. Qed.
+
+  Lemma filter_ready_rq T l : filter (ready T) (map rq l) = map rq (filter (cpl T) l).
+  Proof. rewrite filter_map_comm. f_equal. apply filter_ext. intros kt. apply ready_rq. Qed.
+  Lemma filter_nready_rq T l : filter (nready T) (map rq l) = map rq (filter (fun kt => negb (cpl T kt)) l).
+  Proof. rewrite filter_map_comm. f_equal. apply filter_ext. intros kt. apply nready_rq. Qed.
+
+  (* what the stream invariant says about the log as a list of (key, t0) pairs *)
+  Lemma sinv_live q P A : sinv es q P A ->
+    Forall (fun kt => dom kt /\ 0 <= snd kt) (live_of q) /\ NoDup (map pk (live_of q)) /\ incr (live_of q).
+  Proof.
+    intros I. pose proof (sv_log _ _ _ _ _ _ _ I) as L.
+    assert (D : Forall (fun kt => dom kt /\ 0 <= snd kt) (live_of q)).
+    { rewrite live_of_map. apply Forall_map. eapply Forall_impl; [|exact L]. cbn. unfold dom. cbn [pair_of fst snd].
+      intros i (_ & _ & H3 & _ & H5). split; assumption. }
+    split; [exact D|]. split.
+    - pose proof (sinv_NoDup _ _ _ _ Mn I) as ND. clear - ND D HK. unfold pk. rewrite HK.
+      induction (live_of q) as [|a g IH]; cbn [map]; [constructor|].
+      inversion ND as [|? ? Hn Hd]; subst. inversion D as [|? ? Da Dg]; subst. constructor; [|auto].
+      intros Hin. apply in_map_iff in Hin. destruct Hin as (b & E & Hb).
+      rewrite Forall_forall in Dg. destruct (Dg b Hb) as [Kb _]. destruct Da as [Ka _].
+      apply pkey_inj in E; [|exact Kb|exact Ka]. apply Hn. destruct a, b. cbn [fst snd] in E. destruct E; subst. exact Hb.
+    - apply (disjoint_incr es).
+      + intros k0. unfold len_of. destruct (znth es k0) as [e|] eqn:E; [|lia].
+        apply LemmasC04.znth_In in E. unfold minlen in Mn. rewrite forallb_forall in Mn. apply Mn in E. lia.
+      + apply chain_disjoint; [exact (sv_chain _ _ _ _ _ _ _ I)|].
+        eapply Forall_impl; [|exact L]. cbn. tauto.
+  Qed.
+
+  (* ---------- an acquisition: one send to the extractor ---------- *)
+  Lemma astep_CI st s d m : CI st s d -> 0 <= m -> s_acq st + m <= q_samples (s_q st) ->
+    s_acq st + m <= zlen (s_P st) ->
+    exists s' batch cb, spec_feed B k s (feed_of X st m) = (s', FOut batch cb) /\ CI (astep st m) s' (d ++ batch).
+  Proof.
+    intros [C1 C2 C3 C4 C5 C6 C7 C8 C9 C10 C11 C12 C13 C14 C15] Hm Hclk Hlen.
+    set (acq := s_acq st) in *. set (T1 := acq + m). set (notes := s_notes st) in *. set (Lc := s_live st) in *.
+    set (Dp := filter (cpl acq) Lc). set (Wp := filter (fun kt => negb (cpl acq kt)) Lc).
+    assert (Hsplit : Dp ++ Wp = Lc) by (apply incr_split; exact C12).
+    (* cancelled trials are not among the delivered ones *)
+    assert (HremD : Forall (fun x => ~ In x Dp) (removed_of notes)).
+    { eapply Forall_impl; [|exact C8]. cbn. intros x [H1 H2] Hin. apply filter_In in Hin. destruct Hin as [_ Hc].
+      pose proof (len_cov x H2). unfold cpl, complete in Hc. lia. }
+    rewrite <- Hsplit in C6, C7.
+    destruct (net_live_prefix Dp notes Wp HremD C6) as [VW NW]. rewrite NW in C7.
+    set (Lw := net_live Wp notes) in *.
+    assert (DLc : Forall (fun kt => 0 <= fst kt < x_K X) Lc).
+    { eapply Forall_impl; [|exact C10]. cbn. unfold dom. rewrite HK. tauto. }
+    assert (DWp : Forall (fun kt => 0 <= fst kt < x_K X) Wp) by (apply ProofsSpec.Forall_filter; exact DLc).
+    assert (Dnotes : Forall (dom_ev (x_K X)) notes).
+    { apply dom_ev_of.
+      - eapply Forall_impl; [|exact C9]. cbn. unfold dom. rewrite HK. tauto.
+      - eapply Forall_impl; [|exact C8]. cbn. unfold dom. rewrite HK. tauto. }
+    assert (NdWp : NoDup (map pk (Wp ++ []))).
+    { rewrite app_nil_r. apply (NoDup_map_filter0 pk). exact C11. }
+    destruct (two_phase (x_K X) 0 0 notes Wp [] [] DWp (Forall_nil _) Dnotes eq_refl NdWp) as [TP1 TP2].
+    { cbn [eff fst]. rewrite app_nil_r. exact VW. }
+    cbn [eff fst app] in TP1, TP2. rewrite app_nil_r in TP2. fold Lw in TP2.
+    set (Dr := drain (fun kt : Z * Z => pkey (x_K X) (fst kt) (snd kt)) (rems_of (x_K X) notes) Wp []) in *.
+    set (W1 := fst Dr) in *. set (skip := snd Dr) in *.
+    set (A1 := fst (eff (x_K X) (added_of notes) skip)) in *.
+    (* the log now *)
+    destruct (sinv_live _ _ _ C1) as (LD & LN & LI).
+    rewrite <- C7 in LD, LN, LI.
+    assert (NdLw : NoDup (map pk (W1 ++ A1))).
+    { rewrite TP2. rewrite map_app in LN. eapply ProofsBatch.NoDup_app_remove_l. exact LN. }
+    set (f := feed_of X st m).
+    assert (Hchunk : zlen (f_chunk f) = m).
+    { unfold f, feed_of. cbn [f_chunk]. rewrite Zlen_map, Zlen_firstn, Zlen_skipn. fold acq. lia. }
+    assert (HS1 : s_stream s ++ f_chunk f = map (x_val X) (firstn (Z.to_nat T1) (s_P st))).
+    { rewrite C5. unfold f, feed_of. cbn [f_chunk]. fold acq. rewrite <- map_app. f_equal.
+      unfold T1. replace (Z.to_nat (acq + m)) with (Z.to_nat acq + Z.to_nat m)%nat by lia.
+      symmetry. apply firstn_plus. }
+    set (S1 := s_stream s ++ f_chunk f) in *.
+    assert (HlenS1 : zlen S1 = T1).
+    { rewrite HS1, Zlen_map, Zlen_firstn. unfold T1. lia. }
+    destruct C15 as (a & Ha0 & Hcont).
+    assert (Hcont1 : contig a (s_kept s ++ [(s_T s, zlen (f_chunk f))]) (s_T s + zlen (f_chunk f))).
+    { apply contig_app; [exact Hcont|]. lia. }
+    assert (Hlb : lb_start (s_T s) (s_kept s ++ [(s_T s, zlen (f_chunk f))]) <= acq).
+    { destruct (s_kept s) as [|[a0 m0] t0] eqn:Ek; cbn [app lb_start]; [lia|].
+      cbn [contig] in Hcont. destruct Hcont as (-> & Hm0 & Hc'). apply contig_le in Hc'. lia. }
+    (* removal loop *)
+    assert (Edrain : drain r_key (f_rems f) (s_wait s) [] = (map rq W1, skip)).
+    { rewrite C13. fold Wp.
+      rewrite (drain_map (fun kt : Z * Z => pkey (x_K X) (fst kt) (snd kt)) r_key rq (fun x => eq_refl)).
+      reflexivity. }
+    (* intake loop *)
+    set (lb := lb_start (s_T s) (s_kept s ++ [(s_T s, zlen (f_chunk f))])) in *.
+    assert (Eintake : sintake S1 (s_T s + zlen (f_chunk f)) lb (f_reqs f) (filter (nready (s_T s + zlen (f_chunk f))) (map rq W1)) skip =
+                      Some (filter (nready T1) (map rq W1) ++ filter (nready T1) (map rq A1),
+                            map (s_item S1) (filter (ready T1) (map rq A1)))).
+    { rewrite C3, Hchunk. fold T1. unfold f, feed_of. cbn [f_reqs]. fold notes.
+      apply (sintake_eff (x_K X) (x_n X) (x_pre X)).
+      - fold rq A1. rewrite filter_nready_rq, map_map.
+        change (map (fun x : Z * Z => r_key (rq x))) with (map pk).
+        apply (NoDup_map_sub pk). exact NdLw.
+      - fold rq A1. apply Forall_forall. intros kt Hkt. rewrite rq_lo.
+        apply eff_sub in Hkt. rewrite Forall_forall in C9. destruct (C9 kt Hkt). lia. }
+    set (Xr := filter (ready T1) (map rq (W1 ++ A1))).
+    assert (Ebatch : map (s_item S1) (filter (ready T1) (map rq W1)) ++ map (s_item S1) (filter (ready T1) (map rq A1))
+                     = map (s_item S1) Xr).
+    { unfold Xr. rewrite map_app, filter_app, map_app. reflexivity. }
+    assert (Estack : stack_ok k (map (s_item S1) Xr) = true).
+    { apply stack_ok_items.
+      - unfold Xr. rewrite TP2, filter_ready_rq. apply Forall_forall. intros r Hr.
+        apply in_map_iff in Hr. destruct Hr as (kt & <- & Hkt). apply filter_In in Hkt. destruct Hkt as [Hkt Hc].
+        rewrite rq_lo. cbn [rq req_of r_n]. rewrite HlenS1.
+        apply Forall_app in LD. destruct LD as [_ LD]. rewrite Forall_forall in LD. destruct (LD kt Hkt).
+        unfold cpl, complete in Hc. lia.
+      - apply (uniform_n_same (x_n X)). apply Forall_forall. intros r Hr. unfold Xr in Hr.
+        apply filter_In in Hr. destruct Hr as [Hr _]. apply in_map_iff in Hr. destruct Hr as (kt & <- & _). reflexivity. }
+    rewrite <- Ebatch in Estack.
+    pose proof (spec_feed_compute B k s f (map rq W1) skip _ _ Edrain Eintake) as SF.
+    rewrite C3, Hchunk in SF. fold T1 in SF. specialize (SF Estack).
+    eexists _, _, _. split; [exact SF|].
+    destruct (sinv_live _ _ _ C1) as (LD' & LN' & LI').
+    assert (HDp_all : forall T, acq <= T -> filter (cpl T) Dp = Dp).
+    { intros T HT. apply ProofsSpec.filter_all. intros x Hx. apply filter_In in Hx. destruct Hx as [_ Hc].
+      unfold cpl, complete in *. lia. }
+    assert (HDp_none : forall T, acq <= T -> filter (fun kt => negb (cpl T kt)) Dp = []).
+    { intros T HT. apply ProofsSpec.filter_none. intros x Hx. apply filter_In in Hx. destruct Hx as [_ Hc].
+      unfold cpl, complete in *. lia. }
+    constructor; cbn [astep s_q s_P s_acq s_notes s_live s_added s_T s_stream s_wait s_kept]; fold acq T1; auto.
+    - unfold T1. lia.
+    - exact Logic.I.
+    - constructor.
+    - constructor.
+    - rewrite <- C7, filter_app, HDp_none by (unfold T1; lia). cbn [app].
+      rewrite <- TP2, filter_app, map_app, !filter_nready_rq. reflexivity.
+    - fold S1. rewrite Ebatch. unfold Xr. rewrite TP2, filter_ready_rq.
+      rewrite <- C7, filter_app, HDp_all by (unfold T1; lia). rewrite !map_app. f_equal.
+      rewrite C14. fold Dp. apply map_ext_in. intros r Hr.
+      apply in_map_iff in Hr. destruct Hr as (kt & <- & Hkt). symmetry. apply s_item_app.
+      + rewrite rq_lo. apply filter_In in Hkt. destruct Hkt as [Hkt _].
+        rewrite Forall_forall in C10. destruct (C10 kt Hkt). lia.
+      + exact Hn0.
+      + rewrite rq_lo. cbn [rq req_of r_n]. rewrite C5, Zlen_map, Zlen_firstn.
+        apply filter_In in Hkt. destruct Hkt as [_ Hc]. unfold cpl, complete in Hc. lia.
+    - eapply sprune_contig; [|exact Ha0]. rewrite C3, Hchunk in Hcont1. fold T1 in Hcont1. exact Hcont1.
+  Qed.
+
+  (* ---------- whole schedules ---------- *)
+  Lemma run_steps_CI : forall steps st s d st' fs,
+    CI st s d -> wf_steps all_rep st steps = true -> run_steps all_rep X st steps = Some (st', fs) ->
+    exists s', CI st' s' (d ++ sdeliv B k s fs) /\
+               Forall (fun o => is_err o = false) (map snd (spec_trace B k s fs)) /\
+               Forall (fun r => r_n r = x_n X) (all_reqs fs).
+  Proof.
+    induction steps as [|stp steps IH]; intros st s d st' fs C W H; cbn [run_steps wf_steps] in *.
+    - inversion H; subst. exists s. unfold sdeliv. cbn. rewrite app_nil_r. split; [exact C|]. split; constructor.
+    - destruct stp as [o|m].
+      + apply andb_true_iff in W. destruct W as [W1 W2].
+        destruct (qstep all_rep st o) as [st1|] eqn:Q; [|discriminate].
+        eapply IH; [|exact W2|exact H]. eapply qstep_CI; eauto.
+      + destruct (run_steps all_rep X (astep st m) steps) as [[st2 fs2]|] eqn:R; [|discriminate].
+        inversion H; subst st' fs; clear H.
+        assert (Hw : 0 <= m /\ s_acq st + m <= q_samples (s_q st) /\ s_acq st + m <= zlen (s_P st) /\
+                     wf_steps all_rep (astep st m) steps = true) by lia.
+        destruct Hw as (Hm & Hc & Hl & W2).
+        destruct (astep_CI st s d m C Hm Hc Hl) as (s1 & batch & cb & SF & C').
+        destruct (IH _ _ _ _ _ C' W2 R) as (s' & C'' & E' & N').
+        exists s'. rewrite (sdeliv_step B k s _ fs2 s1 batch cb SF), app_assoc.
+        split; [exact C''|]. split.
+        * cbn [spec_trace]. rewrite SF. cbn [map snd]. constructor; [reflexivity|exact E'].
+        * unfold all_reqs. cbn [flat_map]. apply Forall_app. split; [|exact N'].
+          unfold feed_of. cbn [f_reqs]. apply Forall_map. apply Forall_forall. intros kt _. reflexivity.
+  Qed.
+
+  Lemma CI_init p ch pm : wf_queue p es = true -> CI (cinit (qinit p es ch pm)) sinit [].
+  Proof.
+    intros Wq. constructor.
+    - eapply sinv_init. exact Wq.
+    - cbn. lia.
+    - reflexivity.
+    - cbn. lia.
+    - reflexivity.
+    - exact Logic.I.
+    - reflexivity.
+    - constructor.
+    - constructor.
+    - constructor.
+    - constructor.
+    - exact Logic.I.
+    - reflexivity.
+    - reflexivity.
+    - exists 0. split; [lia|reflexivity].
+  Qed.
+
+  (* the epoch cut out of the acquired stream at a kept trial's start is its waveform followed by silence *)
+  Lemma item_content q P A acq kt : sinv es q P A -> In kt (live_of q) -> cpl acq kt = true ->
+    0 <= acq <= q_samples q -> acq <= zlen P -> poststim_fits es (x_n X) A (live_of q) = true ->
+    s_item (map (x_val X) (firstn (Z.to_nat acq) P)) (rq kt) = epoch_item X es kt.
+  Proof.
+    intros I Hin Hc Ha Hl PF.
+    destruct (sinv_live _ _ _ I) as (LD & _ & _). rewrite Forall_forall in LD. destruct (LD kt Hin) as [Dk T0].
+    destruct (len_cov kt Dk) as [L1 L2].
+    unfold cpl, complete in Hc.
+    unfold s_item, epoch_item. rewrite rq_lo. cbn [rq req_of r_key r_rid r_n]. f_equal.
+    destruct kt as [key t0]. cbn [fst snd] in *.
+    apply live_In in Hin. destruct Hin as (i & Hi & Ek & Et).
+    pose proof (sv_log _ _ _ _ _ _ _ I) as LG. rewrite Forall_forall in LG. destruct (LG i Hi) as (G1 & _).
+    apply list_ext_znth. intros j.
+    rewrite znth_sl by lia. rewrite !znth_map, znth_firstn. unfold epoch_of, wave.
+    rewrite znth_app, Zlen_zrange, znth_zrange, znth_repeat.
+    destruct ((0 <=? j) && (j <? x_n X)) eqn:Ej.
+    - destruct (t0 + j <? acq) eqn:E1; [|lia].
+      destruct (j <? Z.max 0 (len_of es key)) eqn:E2.
+      + destruct ((0 <=? j) && (j <? len_of es key)) eqn:E3; [|lia].
+        rewrite <- Et, <- Ek. rewrite (sv_wave _ _ _ _ _ _ _ I i j Hi) by (rewrite ?G1, ?Ek, ?Et; lia).
+        cbn [option_map]. rewrite Z.add_0_l. reflexivity.
+      + destruct ((0 <=? j - Z.max 0 (len_of es key)) && (j - Z.max 0 (len_of es key) <? Z.of_nat (Z.to_nat (x_n X - len_of es key)))) eqn:E3;
+          [|lia].
+        cbn [option_map].
+        destruct (znth_lt_Some P (t0 + j) ltac:(lia)) as [x Hx]. rewrite Hx. cbn [option_map]. f_equal. f_equal.
+        destruct (sv_all _ _ _ _ _ _ _ I _ _ Hx) as [H0|(k' & t0' & HA & _ & Hr)]; [exact H0|exfalso].
+        unfold poststim_fits in PF. rewrite forallb_forall in PF.
+        assert (Hlv : In (key, t0) (live_of q)).
+        { rewrite live_of_map. apply in_map_iff. exists i. split; [unfold pair_of; congruence|exact Hi]. }
+        specialize (PF _ Hlv). rewrite forallb_forall in PF. specialize (PF _ HA). cbn [fst snd] in PF. lia.
+    - destruct (j <? Z.max 0 (len_of es key)) eqn:E2.
+      + destruct ((0 <=? j) && (j <? len_of es key)) eqn:E3; [lia|reflexivity].
+      + destruct ((0 <=? j - Z.max 0 (len_of es key)) && (j - Z.max 0 (len_of es key) <? Z.of_nat (Z.to_nat (x_n X - len_of es key)))) eqn:E3;
+          [lia|reflexivity].
+  Qed.
+End Compose.
+
+(* ------------------------------------------------------------------ *)
+(* the statements of Props/C06.v about the composition                 *)
+(* ------------------------------------------------------------------ *)
+Lemma cov_n0 p es n : wf_queue p es = true -> minlen es = true ->
+  forallb (fun e => e_len e <=? n) es = true -> 0 <= n.
+Proof.
+  unfold wf_queue, minlen. intros W M C. destruct es as [|e es]; [cbn in W; lia|].
+  cbn [forallb] in M, C. lia.
+Qed.
+
+Lemma end_to_end_core p es ch pm B k X steps st fs :
+  wf_queue p es = true -> minlen es = true -> forallb (fun e => e_len e <=? x_n X) es = true ->
+  x_K X = zlen es -> x_pre X = 0 ->
+  wf_steps all_rep (cinit (qinit p es ch pm)) steps = true ->
+  run_steps all_rep X (cinit (qinit p es ch pm)) steps = Some (st, fs) ->
+  exists s', CI es X st s' (delivered (run B k fs)) /\ Forall (fun o => is_err o = false) (run B k fs).
+Proof.
+  intros Wq Mn Hc HK Hp W H.
+  pose proof (cov_n0 _ _ _ Wq Mn Hc) as Hn0.
+  destruct (run_steps_CI es B k X HK Hp Mn Hc Hn0 steps _ _ _ _ _ (CI_init es X Mn Hc p ch pm Wq) W H)
+    as (s' & C & E & N).
+  assert (Er : run B k fs = spec_run B k fs).
+  { apply run_refines_spec. eapply Forall_impl; [|exact N]. cbn. intros r Hr. lia. }
+  rewrite Er. exists s'. split; [exact C|exact E].
+Qed.
+
+Theorem end_to_end_slices : forall p es ch pm B k X steps st fs,
+  wf_queue p es = true -> minlen es = true -> forallb (fun e => e_len e <=? x_n X) es = true ->
+  x_K X = zlen es -> x_pre X = 0 ->
+  wf_steps all_rep (cinit (qinit p es ch pm)) steps = true ->
+  run_steps all_rep X (cinit (qinit p es ch pm)) steps = Some (st, fs) ->
+  Forall (fun o => is_err o = false) (run B k fs) /\
+  delivered (run B k fs) =
+    map (s_item (map (x_val X) (firstn (Z.to_nat (s_acq st)) (s_P st))))
+        (map (req_of (x_K X) (x_n X) (x_pre X)) (filter (complete (x_n X) (s_acq st)) (s_live st))) /\
+  net_live (s_live st) (s_notes st) = live_of (s_q st).
+Proof.
+  intros p es ch pm B k X steps st fs Wq Mn Hc HK Hp W H.
+  destruct (end_to_end_core p es ch pm B k X steps st fs Wq Mn Hc HK Hp W H) as (s' & C & E).
+  split; [exact E|]. split; [|exact (ci_net _ _ _ _ _ C)].
+  rewrite (ci_deliv _ _ _ _ _ C), (ci_S _ _ _ _ _ C). reflexivity.
+Qed.
+
+Theorem end_to_end : forall p es ch pm B k X steps st fs,
+  wf_queue p es = true -> minlen es = true -> forallb (fun e => e_len e <=? x_n X) es = true ->
+  x_K X = zlen es -> x_pre X = 0 ->
+  wf_steps all_rep (cinit (qinit p es ch pm)) steps = true ->
+  run_steps all_rep X (cinit (qinit p es ch pm)) steps = Some (st, fs) ->
+  s_notes st = [] ->
+  poststim_fits es (x_n X) (s_added st) (live_of (s_q st)) = true ->
+  Forall (fun o => is_err o = false) (run B k fs) /\
+  delivered (run B k fs) = map (epoch_item X es) (filter (complete (x_n X) (s_acq st)) (live_of (s_q st))).
+Proof.
+  intros p es ch pm B k X steps st fs Wq Mn Hc HK Hp W H Hnotes PF.
+  destruct (end_to_end_core p es ch pm B k X steps st fs Wq Mn Hc HK Hp W H) as (s' & C & E).
+  split; [exact E|].
+  pose proof (ci_net _ _ _ _ _ C) as N. rewrite Hnotes in N. cbn [net_live] in N.
+  rewrite (ci_deliv _ _ _ _ _ C), (ci_S _ _ _ _ _ C), N, map_map.
+  apply map_ext_in. intros kt Hkt. apply filter_In in Hkt. destruct Hkt as [Hin Hcp].
+  pose proof (cov_n0 _ _ _ Wq Mn Hc) as Hn0.
+  eapply (item_content es 0 X HK Hp Mn Hc); eauto.
+  - exact (ci_sinv _ _ _ _ _ C).
+  - exact (ci_acq _ _ _ _ _ C).
+  - exact (ci_len _ _ _ _ _ C).
+Qed.
+
+Lemma pause_no_added R q tm : added_of (snd (fst (pause R q tm))) = [].
+Proof.
+  unfold pause. destruct tm as [t|]; [|reflexivity].
+  destruct (t >? q_samples q); cbn [fst snd]; apply added_of_map_removed.
+Qed.
+
+(* the queue side of a combined schedule is the history of its queue operations: same final queue state,
+   same played stream, and s_added collects the added notifications *)
+Lemma run_steps_play R X : forall steps st st' fs,
+  run_steps R X st steps = Some (st', fs) ->
+  exists ev, play_hist R (s_q st) (s_P st) (ops_of steps) = Some (s_q st', ev, s_P st') /\
+             s_added st' = s_added st ++ added_of ev.
+Proof.
+  induction steps as [|stp steps IH]; intros st st' fs H; cbn [run_steps ops_of play_hist] in *.
+  - inversion H; subst. exists []. split; [reflexivity|]. cbn. rewrite app_nil_r. reflexivity.
+  - destruct stp as [o|m].
+    + destruct (qstep R st o) as [st1|] eqn:Q; [|discriminate].
+      destruct (IH _ _ _ H) as (ev & PH & AD).
+      destruct o as [n|tm|tm]; cbn [qstep play_hist] in *.
+      * destruct (pop_buffer R (s_q st) n) as [[[q1 out] e1]|]; [|discriminate].
+        inversion Q; subst st1; clear Q. cbn [s_q s_P s_added] in *. rewrite PH.
+        exists (e1 ++ ev). split; [reflexivity|]. rewrite AD, added_of_app, app_assoc. reflexivity.
+      * pose proof (pause_no_added R (s_q st) tm) as Ea.
+        destruct (pause R (s_q st) tm) as [[q1 e1] err]. destruct err; [discriminate|]. cbn [fst snd] in Ea.
+        inversion Q; subst st1; clear Q. cbn [s_q s_P s_added] in *. rewrite PH.
+        exists (e1 ++ ev). split; [reflexivity|]. rewrite AD, added_of_app, Ea. reflexivity.
+      * inversion Q; subst st1; clear Q. cbn [s_q s_P s_added] in *. exists ev. split; [exact PH|exact AD].
+    + destruct (run_steps R X (astep st m) steps) as [[st2 fs2]|] eqn:RS; [|discriminate].
+      inversion H; subst st' fs; clear H. destruct (IH _ _ _ RS) as (ev & PH & AD). exists ev. split; assumption.
+Qed.
+
+(* ... and a well-formed schedule is a well-formed, timed history *)
+Lemma wf_steps_hist R : forall steps st, wf_steps R st steps = true ->
+  wf_hist R (s_q st) (ops_of steps) = true /\ timed_hist R (s_q st) (ops_of steps) = true.
+Proof.
+  induction steps as [|stp steps IH]; intros st W; cbn [wf_steps ops_of wf_hist timed_hist] in *; [auto|].
+  destruct stp as [o|m].
+  - apply andb_true_iff in W. destruct W as [W1 W2]. unfold wf_qop in W1. apply andb_true_iff in W1. destruct W1 as [T W1].
+    destruct (qstep R st o) as [st1|] eqn:Q; [|discriminate]. destruct (IH _ W2) as [H1 H2].
+    destruct o as [n|tm|tm]; cbn [qstep wf_hist timed_hist] in *.
+    + destruct (pop_buffer R (s_q st) n) as [[[q1 out] e1]|]; [|discriminate].
+      inversion Q; subst st1. cbn [s_q] in *. rewrite H1, H2, T, W1. split; reflexivity.
+    + destruct (pause R (s_q st) tm) as [[q1 e1] err]. destruct err; [discriminate|].
+      inversion Q; subst st1. cbn [s_q] in *. rewrite H1, H2. split; [|reflexivity].
+      destruct tm as [x|]; [|reflexivity]. rewrite andb_true_r. lia.
+    + inversion Q; subst st1. cbn [s_q] in *. rewrite H1, H2, T. split; [|reflexivity].
+      destruct tm as [x|]; [|reflexivity]. rewrite andb_true_r. lia.
+  - apply (IH (astep st m)). lia.
 Qed.
